@@ -123,6 +123,7 @@ def roundtrip(res, scratch, text, what, low_memory=False):
     if os.path.exists(outp):
         os.remove(outp)
     res.evaluations += 1
+    res.next_call()
     case = {"mode": "roundtrip", "gfa": text}
     o = fw.guarded(GFA, inp)
     if o.kind != "ok":
@@ -218,6 +219,7 @@ def tags_part(res, scratch):
 
 
 def judge_order_outputs(res, scratch, g, chains, chrom_order, by_chrom, with_sequence, what):
+    res.next_call()
     run = oc.run_order(scratch, g.text(), chrom_order, by_chrom=by_chrom, with_sequence=with_sequence)
     res.evaluations += 1
     case = {"mode": "order", "gfa": g.text(), "chromosome_order": chrom_order, "by_chrom": by_chrom, "with_sequence": with_sequence}
@@ -298,7 +300,7 @@ def order_part(res, spec, tier, scratch):
 
 
 def run_shard(spec, tier, scratch):
-    res = fw.ShardResult()
+    res = fw.ShardResult().begin(spec, tier)
     if spec["part"] == "roundtrip":
         roundtrip_part(res, spec, tier, scratch)
     elif spec["part"] == "tags":
